@@ -234,7 +234,7 @@ pub fn float_inputs(seed: u64, count: usize, nmax: usize, dims: &[usize]) -> Vec
             }
             "ring" => {
                 // a generator inside a ring of many neighbours (+ one above and below in 3D): a face with many edges
-                let m = rng.gen_range(18..=30);
+                let m = rng.gen_range(24..=44); // faces with up to 44 vertices (thresholds on the size of a face)
                 let c = DVec3::splat(0.5);
                 let wmin = width.min_element();
                 gens.push(anchor + c * width);
@@ -973,7 +973,9 @@ pub fn main_tess(args: &[String]) -> i32 {
     for inp in inputs.iter() {
         let mut masks = masks_for(inp.gens.len(), &mut rng, &tier);
         if inp.kind == "refine" {
-            masks.truncate(1); // the full run only (a 270-cell record per mask is large)
+            // the full run and ONE partial run: only the central cell selected (index arithmetic on more than 256 cells)
+            masks.truncate(1);
+            masks.push(Some((0..inp.gens.len()).map(|i| i == 0).collect()));
         }
         for (mi, m) in masks.iter().enumerate() {
             masks_total += 1;
